@@ -3,6 +3,7 @@
 package cl
 
 import (
+	"fmt"
 	"time"
 
 	"github.com/ohler55/slip"
@@ -70,6 +71,16 @@ func (f *EncodeUniversalTime) Call(s *slip.Scope, args slip.List, depth int) sli
 		loc,
 	)
 	return slip.Fixnum(tm.Unix() + 2208988800)
+}
+
+// getSizeArg returns arg as an int if it is a fixnum that can be the size of
+// a sequence, not negative and not more than array-dimension-limit.
+func getSizeArg(s *slip.Scope, arg slip.Object, use string, depth int) int {
+	num, ok := arg.(slip.Fixnum)
+	if !ok || num < 0 || slip.ArrayMaxDimension < num {
+		slip.TypePanic(s, depth, use, arg, fmt.Sprintf("non-negative fixnum not greater than %d", slip.ArrayMaxDimension))
+	}
+	return int(num)
 }
 
 func getFixnumArg(s *slip.Scope, arg slip.Object, use string, depth int) int {
